@@ -50,7 +50,9 @@ def _defs():
 TEXTS = ["a small step", "a plain step", "A plain step", "a plain step ", "xa plain step", "a plain stop", "I have 3 apples", "I have 0 apples", "I have -12 apples", "i have 3 apples",
          "I have x apples", "I have 3 apples now", "I have 3 pears", "a big step", "a  step", "a b c step", "pair x and y", "pair x and", "Pair x and y",
          "val 1.5 of red", "val 0.0 of green", "val 1 of red", "val 2.25 of blue", "numbers 1, 2, 3", "numbers 7", "numbers", "numbers a", "re 12 and ab", "re x and ab",
-         "re 12 and ab!", "RE 12 and ab", "optre", "optre a", "optre a and b", "optre a x", "optre a and b x", "I do this", "I do that", "I do this and more", "well I do that", "anchored 5", "anchored 5 x", "x anchored 5", "a plain thing", "a plain ", "", "zzz"]
+         "re 12 and ab!", "RE 12 and ab", "optre", "optre a", "optre a and b", "optre a x", "optre a and b x", "I do this", "I do that", "I do this and more", "well I do that", "anchored 5", "anchored 5 x", "x anchored 5", "a plain thing", "a plain ", "", "zzz",
+         # step texts spelled exactly like a pattern with fields (they go through the matcher like any other text)
+         "a {name} step", "I have {n:d} apples", "^anchored (\\d+)$", "a plain {thing}"]
 STYPES = ["given", "when", "step"]
 
 
